@@ -5,15 +5,26 @@
 // only), and is compared with the composite model  wrapper o breaker.
 // request: [kind, code, gap, dur, m]  kind 0: next writes `code` and returns (code 0: writes
 // nothing), 1: next panics before writing, 2: next writes `code`, then panics.
-// observation: [next invoked, 0 status / 1 panic, status code seen]
+// kind 3, a SCRIPT through the middleware chain the rest engine builds inside the breaker:
+// [3, chain, gap, dur, m, end, op...]  chain 0 handler, 1 Recover(handler), 2 Timeout(handler),
+// 3 Timeout(Recover(handler)) (engine.go's order); op: 1 Write, 2 Flush, c >= 100 WriteHeader(c);
+// end 0 return, 1 panic, 2 stall until the route's timeout fires, 3 stall until the client
+// cancels.  A stalling handler is parked on a channel that is released only after the chain has
+// returned, so the timeout / cancel branch is the only one TimeoutHandler can take; requests that
+// must finish use a chain with a very long timeout (a failure detector only).  All chains of a
+// case share ONE BreakerHandler middleware, hence one breaker.
+// observation: [next invoked, 0 status / 1 panic, status code seen (-2 for an admitted script:
+// what the client receives is not judged)]
 package handler
 
 import (
+	"context"
 	"encoding/json"
 	"fmt"
 	"net/http"
 	"net/http/httptest"
 	"os"
+	"sync/atomic"
 	"testing"
 	"time"
 
@@ -54,33 +65,83 @@ func TestVerifC01W(t *testing.T) {
 		out := breaker.VerifWOut{ID: c.ID}
 		timex.SetFakeNow(time.Duration(c.Base))
 		var cur []int64
-		var invoked int64
+		var invoked atomic.Int64
 		pv := &struct{ n int }{c.ID}
+		var parked chan struct{}
+		var release chan struct{}
 		next := http.HandlerFunc(func(w http.ResponseWriter, r *http.Request) {
-			invoked++
-			timex.AdvanceFake(time.Duration(cur[3]))
-			switch cur[0] {
+			invoked.Add(1)
+			q := cur
+			timex.AdvanceFake(time.Duration(q[3]))
+			switch q[0] {
 			case 0:
-				if cur[1] != 0 {
-					w.WriteHeader(int(cur[1]))
+				if q[1] != 0 {
+					w.WriteHeader(int(q[1]))
 				}
 			case 1:
 				panic(pv)
-			default:
-				w.WriteHeader(int(cur[1]))
+			case 2:
+				w.WriteHeader(int(q[1]))
 				panic(pv)
+			default:
+				for _, op := range q[6:] {
+					switch {
+					case op == 1:
+						_, _ = w.Write([]byte("verif"))
+					case op == 2:
+						if f, ok := w.(http.Flusher); ok {
+							f.Flush()
+						}
+					default:
+						w.WriteHeader(int(op))
+					}
+				}
+				switch q[5] {
+				case 1:
+					panic(pv)
+				case 2, 3:
+					if q[1] >= 2 { // only a chain with TimeoutHandler ends a stalled request
+						parked <- struct{}{}
+						<-release
+					}
+				}
 			}
 		})
-		h := BreakerHandler(http.MethodGet, fmt.Sprintf("/verif/c01w/%d", c.ID), metrics)(next)
+		mw := BreakerHandler(http.MethodGet, fmt.Sprintf("/verif/c01w/%d", c.ID), metrics)
+		const long, short = 10 * time.Minute, 25 * time.Millisecond
+		h := mw(next)
+		chains := map[[2]int64]http.Handler{
+			{0, 0}: h, {0, 1}: h,
+			{1, 0}: mw(RecoverHandler(next)), {1, 1}: mw(RecoverHandler(next)),
+			{2, 0}: mw(TimeoutHandler(long)(next)), {2, 1}: mw(TimeoutHandler(short)(next)),
+			{3, 0}: mw(TimeoutHandler(long)(RecoverHandler(next))), {3, 1}: mw(TimeoutHandler(short)(RecoverHandler(next))),
+		}
 		for _, q := range c.Reqs {
 			cur = q
-			invoked = 0
+			invoked.Store(0)
 			timex.AdvanceFake(time.Duration(q[2]))
 			src.next = q[4]
 			rec := httptest.NewRecorder()
 			req := httptest.NewRequest(http.MethodGet, "http://localhost/verif", nil)
+			hh := h
+			var cancel context.CancelFunc = func() {}
+			script := q[0] == 3
+			if script {
+				var isShort int64
+				if q[5] == 2 && q[1] >= 2 {
+					isShort = 1
+				}
+				hh = chains[[2]int64{q[1], isShort}]
+				var ctx context.Context
+				ctx, cancel = context.WithCancel(context.Background())
+				req = req.WithContext(ctx)
+				parked = make(chan struct{}, 1)
+				release = make(chan struct{})
+			}
 			var pk int64
-			func() {
+			finished := make(chan struct{})
+			go func() {
+				defer close(finished)
 				defer func() {
 					if r := recover(); r != nil {
 						pk = 1
@@ -89,9 +150,34 @@ func TestVerifC01W(t *testing.T) {
 						}
 					}
 				}()
-				h.ServeHTTP(rec, req)
+				hh.ServeHTTP(rec, req)
 			}()
-			out.Obs = append(out.Obs, []int64{invoked, pk, int64(rec.Code)})
+			if script && q[5] == 3 && q[1] >= 2 {
+				// the client goes away once the handler is parked (or the request was rejected)
+				select {
+				case <-parked:
+					cancel()
+				case <-finished:
+				}
+			}
+			select {
+			case <-finished:
+			case <-time.After(5 * time.Minute):
+				out.Err = "request did not finish"
+			}
+			cancel()
+			if script {
+				close(release)
+			}
+			if out.Err != "" {
+				break
+			}
+			inv := invoked.Load()
+			code := int64(rec.Code)
+			if script && inv != 0 {
+				code = -2
+			}
+			out.Obs = append(out.Obs, []int64{inv, pk, code})
 		}
 		w.Put(out)
 	}
